@@ -3,17 +3,22 @@ import AiocoapModel.Blockwise.Server
 /-! Line protocol for the block-wise server model (C06).
 
 `C06 R <T> <step>*`  request sequence against up to 4 resources (own state each, one clock)
-   step = `res,dt,asm,rkey,mps,mszx,code,b1,b2,opts,payload,hcode,hopts,hpayload`
+   step = `res,dt,asm,rkey,mps,mszx,code,b1,b2,opts,payload,hcode,hopts,hpayload,obs`
      res     resource index 0..3          dt   ticks since the previous step
      asm     `needs_blockwise_assembly` 0/1
+     obs     0: a plain `Resource`; 1: an `ObservableResource` (its `_render_to_pipe`)
      rkey    id of `remote.blockwise_key`, mps/mszx `maximum_payload_size`/`maximum_block_size_exp`
      b1,b2   value of the Block1/Block2 option as the integer on the wire, `-` if absent
      opts    `_` or `num=hex;num=hex…` (all other options in option_list order)
      payload hex, `-` (empty) or `r<len>.<a>.<b>` (byte i = (a + b·i) mod 256)
      h*      what the handler answers if it is invoked at this step; hcode `!<code>` = the
              handler raises an exception that is rendered with that code (hopts/hpayload unused)
-   → per step `code|b1|b2|opts|payload|seen`; block options as `num/m/szx`;
-     seen = `-` or `H~code~b1~b2~opts~payload` (the request the handler was invoked with)
+   → per step `code|b1|b2|opts|payload|seen|entry`; block options as `num/m/szx`;
+     seen = `-` or `H~code~b1~b2~opts~payload` (the request the handler was invoked with);
+     entry = `-` (plain resource), `p` / `o`: on an observable resource the request takes the way of
+     `Resource._render_to_pipe` / enters the observation branch (`add_observation` is called); the
+     response is the one `_render_blockwise` produces in both cases (the Observe option an accepted
+     observation adds to it is not part of the model)
 `C06 T <T> <op>*`    TimeoutDict; ops `g:<dt>:<k>` `s:<dt>:<k>:<v>` `d:<dt>:<k>` `m:<dt>:<k>:<v>` `w:<dt>`
    → per op the value / `K` (KeyError) / `ok`, then `|k=v,…` (sorted by key) and `|t` / `|n`
      (timer pending or not)
@@ -67,7 +72,15 @@ def showOut (o : StepOut) : String :=
 structure DStep where
   res : Nat
   dt : Nat
+  obs : Bool         -- the resource is an `ObservableResource`
   inp : Nat → In     -- given the absolute time
+
+/-- the way the request takes on its resource -/
+def showEntry (d : DStep) : String :=
+  if !d.obs then "-" else
+  match obsEntry (d.inp 0).req with
+  | .plain => "p"
+  | .observe => "o"
 
 def parseBool (s : String) : Option Bool :=
   if s = "1" then some true else if s = "0" then some false else none
@@ -85,8 +98,9 @@ def outcomeOpts : Outcome → List Opt
 
 def parseStep (s : String) : Option DStep :=
   match s.splitOn "," with
-  | [res, dt, asm, rkey, mps, mszx, code, b1, b2, opts, payload, hcode, hopts, hpayload] => do
+  | [res, dt, asm, rkey, mps, mszx, code, b1, b2, opts, payload, hcode, hopts, hpayload, obs] => do
     let res ← res.toNat?
+    let obs ← parseBool obs
     let dt ← dt.toNat?
     let asm ← parseBool asm
     let rkey ← rkey.toNat?
@@ -105,7 +119,7 @@ def parseStep (s : String) : Option DStep :=
     let resp : Outcome :=
       if hcode.1 then .error hcode.2
       else .ok { code := hcode.2, opts := hopts, block1 := none, block2 := none, payload := hpayload }
-    pure { res := res, dt := dt,
+    pure { res := res, dt := dt, obs := obs,
            inp := fun now => { now := now, assemble := asm, req := req, render := fun _ => resp } }
   | _ => none
 
@@ -127,7 +141,7 @@ def runSteps (T : Nat) : List RState → Nat → List DStep → List String
     | none => ["bad-res"]
     | some st =>
       let r := step T st (d.inp now')
-      showOut r.2 :: runSteps T (sts.set d.res r.1) now' rest
+      (showOut r.2 ++ "|" ++ showEntry d) :: runSteps T (sts.set d.res r.1) now' rest
 
 -- TimeoutDict -------------------------------------------------------------------------------
 
